@@ -1,5 +1,6 @@
 import TwistedProps.C13.Live
 import TwistedProps.C13.Life
+import TwistedModel.Drv.C13
 /-!
 C13 — callFromThread runs each call once, in the reactor thread, in per-thread order, promptly.
 
@@ -383,5 +384,72 @@ example :
     let lc : LCfg := ⟨Cfg.asyncio, true, demoEff⟩
     let s := lrun lc [.thread 0, .thread 0, .reactor, .reactor, .reactor, .reactor, .reactor] (linitIdle false)
     s.base.ran = [⟨0, 0⟩] ∧ s.phase = .stopping ∧ s.base.waker = 1 := by decide
+
+/-! ### calls issued by the reactor thread itself (from a call's body, from a delayed call) -/
+section Reentrant
+open Twisted.Drv.C13
+
+theorem lrun_cons (lc : LCfg) (a : Actor) (l : List Actor) (s : LState) :
+    lrun lc (a :: l) s = lrun lc l (lstep lc s a) := by
+  simp [lrun]
+
+theorem lrun_append (lc : LCfg) (l1 l2 : List Actor) (s : LState) :
+    lrun lc (l1 ++ l2) s = lrun lc l2 (lrun lc l1 s) := by
+  simp [lrun, List.foldl_append]
+
+/-- **The reactor thread's own calls are ordinary schedules.**  Running a schedule in which calls' bodies issue
+    calls themselves (`c`) or through a delayed call (`d`) — what the driver op `lrunx` computes and the tie
+    compares with the real code — IS the life-cycle model's run on the schedule `desugar` builds (those calls
+    as two steps of thread 7 where the body / the delayed call makes them: the reactor performs no other shared
+    access in between).  Every theorem of this file holds for ALL schedules, hence for that one. -/
+theorem lrunX_eq_lrun (lc : LCfg) (x : Call → XEff) (sched : List Actor) (s : LState) (later : Nat) :
+    lrunX lc x sched s later = lrun lc (desugar lc x sched s later) s := by
+  induction sched generalizing s later with
+  | nil => simp [lrunX, desugar, lrun]
+  | cons a rest ih =>
+    cases a with
+    | thread t => simp only [lrunX, desugar, lrun_cons]; exact ih _ _
+    | reactor =>
+      simp only [lrunX, desugar, lrun_cons, lrun_append]
+      exact ih _ _
+
+/-- per-thread FIFO, nothing lost, nothing duplicated — also for the calls the reactor thread issues itself
+    (`t = 7`), whatever calls issue further calls -/
+theorem per_thread_fifo_reentrant (lc : LCfg) (x : Call → XEff) (sched : List Actor) (s0 : LState)
+    (h0 : LStart s0) (t : Nat) :
+    ((lrunX lc x sched s0 0).base.ran ++ pending (lrunX lc x sched s0 0).base).filter (byThread t)
+      = issueList t ((lrunX lc x sched s0 0).base.issued t) := by
+  rw [lrunX_eq_lrun]; exact per_thread_fifo_lifecycle lc _ s0 h0 t
+
+theorem accounting_reentrant (lc : LCfg) (x : Call → XEff) (sched : List Actor) (s0 : LState)
+    (h0 : LStart s0) (c : Call) :
+    (lrunX lc x sched s0 0).base.ran.count c + (pending (lrunX lc x sched s0 0).base).count c
+      = if c.idx < (lrunX lc x sched s0 0).base.issued c.thread then 1 else 0 := by
+  rw [lrunX_eq_lrun]; exact accounting_lifecycle lc _ s0 h0 c
+
+/-- the reactor never sleeps on a non-empty queue unless a thread is still inside `callFromThread` — also when
+    the queue holds calls the reactor thread issued itself -/
+theorem no_lost_wakeup_reentrant (lc : LCfg) (x : Call → XEff) (sched : List Actor) (s0 : LState)
+    (h0 : LStart s0) (hb : blocked (lrunX lc x sched s0 0).base = true)
+    (hq : (lrunX lc x sched s0 0).base.queue ≠ []) :
+    ∃ t, (lrunX lc x sched s0 0).base.pw t = true := by
+  rw [lrunX_eq_lrun] at hb hq ⊢; exact no_lost_wakeup_lifecycle lc _ s0 h0 hb hq
+
+/-- thread 0's call 0 schedules a delayed call that issues a call; the reactor thread's call 0 issues another
+    from its own body -/
+def demoX (c : Call) : XEff :=
+  if c = ⟨0, 0⟩ then .later else if c = ⟨7, 0⟩ then .issue else .none
+
+example :
+    let lc : LCfg := ⟨Cfg.posix, false, fun _ => .none⟩
+    let s := lrunX lc demoX ([.thread 0, .thread 0] ++ List.replicate 6 .reactor) (linit false) 0
+    s.base.ran = [⟨0, 0⟩] ∧ s.base.queue = [⟨7, 0⟩] ∧ s.base.waker = 2 ∧ lblocked s = false ∧
+    (lrunX lc demoX ([.thread 0, .thread 0] ++ List.replicate 20 .reactor) (linit false) 0).base.ran
+      = [⟨0, 0⟩, ⟨7, 0⟩, ⟨7, 1⟩] ∧
+    desugar lc demoX ([.thread 0, .thread 0] ++ List.replicate 6 .reactor) (linit false) 0
+      = [.thread 0, .thread 0, .reactor, .reactor, .reactor, .reactor, .reactor, .thread 7, .thread 7, .reactor] := by
+  decide
+
+end Reentrant
 
 end TwistedProps.C13
